@@ -59,7 +59,9 @@ def jobs():
     for l, c in asserts: b += A(l, c)
     mk('read', b, len(asserts) + 1, ['ObjectQueue::read'])
     # ---- read wait predicate (P1, P2)
-    b = '    _Bool w = ObjectQueue_read__waitpred(&q);\n'
+    from checks.c15 import pred_call
+    pc_, d_ = pred_call('ObjectQueue_read__waitpred', '&q', ('obj', 'n'))
+    b = d_ + '    _Bool w = %s;\n' % pc_
     asserts = [('read/wait-predicate-is-abort-or-nonempty-or-declared-size-consumed', 'w == (q.m_abort || !EMPTY(q) || q.m_tellg >= q.m_fileSize)'),
                ('read/abort-releases-a-waiting-consumer', '!q.m_abort || w')]
     for l, c in asserts: b += A(l, c)
@@ -78,7 +80,8 @@ def jobs():
     ]
     for l, c in asserts: b += A(l, c)
     mk('write', b, len(asserts) + 1, ['ObjectQueue::write'])
-    b = '    _Bool w = ObjectQueue_write__waitpred(&q);\n'
+    pc_, d_ = pred_call('ObjectQueue_write__waitpred', '&q', ('obj', 'n'))
+    b = d_ + '    _Bool w = %s;\n' % pc_
     asserts = [('write/wait-predicate-holds-producer-back-at-capacity', 'w == (q.m_abort || (uint32_t)SIZE(q) < q.m_bufferSize)'),
                ('write/abort-releases-a-waiting-producer', '!q.m_abort || w')]
     for l, c in asserts: b += A(l, c)
